@@ -1,5 +1,5 @@
 CONSTANTS
-  Ticks = {1, 2, 3, 5, 43000}
+  Ticks = {1, 2, 3, 5}
   Horizon = 100000000
   RawTTLs = {0, 3, 7, 300}
   AuxSet <- AuxNone
